@@ -169,3 +169,296 @@ theorem unrelateAll_rev {sch : Schema} (hok : SchemaOk sch) {i : Nat} {a : Assoc
     · exact ih.2 y' hy'
 
 end Pyx.Meta
+
+namespace Pyx.Meta
+
+theorem typed_of_sub {sch : Schema} {s s' : State} (ht : Typed sch s) (hsub : SubLinks s' s) (hk : s'.kindOf = s.kindOf) :
+    Typed sch s' := by
+  intro i x y hm
+  rw [hk]
+  exact ht i x y ((hsub i x y).1 hm)
+
+/-- the link entries of class `k` are exactly: for every association whose target class is `k` its
+    source_link (phrase = target phrase), for every association whose source class is `k` its target_link -/
+theorem mem_linksOfFrom (k : Kind) : ∀ (sch : Schema) (n i : Nat) (b : Bool) (ph : String),
+    (i, b, ph) ∈ linksOfFrom k n sch ↔
+      ∃ a, sch[i - n]? = some a ∧ n ≤ i ∧
+        ((b = true ∧ a.tgtKind = k ∧ ph = a.tgtPhrase) ∨ (b = false ∧ a.srcKind = k ∧ ph = a.srcPhrase))
+  | [], n, i, b, ph => by simp [linksOfFrom]
+  | a :: rest, n, i, b, ph => by
+    rw [linksOfFrom, List.mem_append, List.mem_append, mem_linksOfFrom k rest (n + 1) i b ph]
+    constructor
+    · rintro ((h | h) | h)
+      · split at h
+        · rename_i hk
+          simp only [List.mem_singleton, Prod.mk.injEq] at h
+          obtain ⟨rfl, rfl, rfl⟩ := h
+          exact ⟨a, by simp, Nat.le_refl _, Or.inl ⟨rfl, hk, rfl⟩⟩
+        · simp at h
+      · split at h
+        · rename_i hk
+          simp only [List.mem_singleton, Prod.mk.injEq] at h
+          obtain ⟨rfl, rfl, rfl⟩ := h
+          exact ⟨a, by simp, Nat.le_refl _, Or.inr ⟨rfl, hk, rfl⟩⟩
+        · simp at h
+      · obtain ⟨a', ha', hn, hc⟩ := h
+        refine ⟨a', ?_, by omega, hc⟩
+        have : i - n = (i - (n + 1)) + 1 := by omega
+        rw [this]; simpa using ha'
+    · rintro ⟨a', ha', hn, hc⟩
+      by_cases hin : i = n
+      · subst hin
+        simp only [Nat.sub_self, List.getElem?_cons_zero, Option.some.injEq] at ha'
+        subst ha'
+        rcases hc with ⟨rfl, hk, rfl⟩ | ⟨rfl, hk, rfl⟩
+        · exact Or.inl (Or.inl (by simp [hk]))
+        · exact Or.inl (Or.inr (by simp [hk]))
+      · refine Or.inr ⟨a', ?_, by omega, hc⟩
+        have : i - n = (i - (n + 1)) + 1 := by omega
+        rw [this] at ha'; simpa using ha'
+
+theorem mem_linksOf {sch : Schema} {k : Kind} {i : Nat} {b : Bool} {ph : String} :
+    (i, b, ph) ∈ linksOf sch k ↔
+      ∃ a, sch[i]? = some a ∧
+        ((b = true ∧ a.tgtKind = k ∧ ph = a.tgtPhrase) ∨ (b = false ∧ a.srcKind = k ∧ ph = a.srcPhrase)) := by
+  unfold linksOf
+  rw [mem_linksOfFrom]
+  simp
+
+/-- the delete loop over link entries: every unrelate succeeds and afterwards the deleted instance has
+    no partner on any processed entry -/
+theorem deleteLinks_clears {sch : Schema} (hok : SchemaOk sch) (x : Inst) :
+    ∀ (ls : List (Nat × Bool × String)) (s : State), Inv sch s → Typed sch s →
+    (∀ e ∈ ls, ∃ a, sch[e.1]? = some a ∧
+      ((e.2.1 = true ∧ a.tgtKind = s.kindOf x ∧ e.2.2 = a.tgtPhrase) ∨
+       (e.2.1 = false ∧ a.srcKind = s.kindOf x ∧ e.2.2 = a.srcPhrase))) →
+    (deleteLinks sch x ls s).2 = .ok ∧
+    ∀ e ∈ ls, (e.2.1 = true → ((deleteLinks sch x ls s).1.links e.1).src x = []) ∧
+              (e.2.1 = false → ((deleteLinks sch x ls s).1.links e.1).tgt x = [])
+  | [], s, _, _, _ => ⟨rfl, fun _ h => by simp at h⟩
+  | (i, b, ph) :: rest, s, hinv, ht, hls => by
+    obtain ⟨a, ha, hc⟩ := hls (i, b, ph) (by simp)
+    have hrel : (specAt sch i).rel = a.rel := by rw [specAt_of_get ha]
+    -- the inner loop on this entry
+    have hinner : (unrelateAll sch x (specAt sch i).rel ph
+          (if b then (s.links i).src x else (s.links i).tgt x) s).2 = .ok ∧
+        (b = true → ((unrelateAll sch x (specAt sch i).rel ph
+          (if b then (s.links i).src x else (s.links i).tgt x) s).1.links i).src x = []) ∧
+        (b = false → ((unrelateAll sch x (specAt sch i).rel ph
+          (if b then (s.links i).src x else (s.links i).tgt x) s).1.links i).tgt x = []) := by
+      rcases hc with ⟨hb, hk, hph⟩ | ⟨hb, hk, hph⟩
+      · simp only at hb hk hph
+        subst hb; subst hph
+        rw [hrel]
+        have h := unrelateAll_fwd hok ha ((s.links i).src x) s hinv hk.symm
+          (fun y hy => by
+            obtain ⟨a', ha', _, hy'⟩ := ht i x y hy
+            rw [ha] at ha'; cases ha'; exact hy')
+          ((hinv i).2.1.1 x) (fun y hy => hy)
+        refine ⟨h.1, fun _ => ?_, fun hf => by cases hf⟩
+        apply List.eq_nil_iff_forall_not_mem.mpr
+        intro y hy
+        exact h.2 y ((unrelateAll_sub sch x a.rel a.tgtPhrase _ s i x y).1 hy) hy
+      · simp only at hb hk hph
+        subst hb; subst hph
+        rw [hrel]
+        have h := unrelateAll_rev hok ha ((s.links i).tgt x) s hinv hk.symm
+          (fun y hy => by
+            have hx' : x ∈ (s.links i).src y := ((hinv i).1 y x).2 hy
+            obtain ⟨a', ha', hy', _⟩ := ht i y x hx'
+            rw [ha] at ha'; cases ha'; exact hy')
+          ((hinv i).2.1.2 x) (fun y hy => hy)
+        refine ⟨h.1, (fun hf => by cases hf), fun _ => ?_⟩
+        apply List.eq_nil_iff_forall_not_mem.mpr
+        intro y hy
+        exact h.2 y ((unrelateAll_sub sch x a.rel a.srcPhrase _ s i x y).2 hy) hy
+    have hs1_inv := unrelateAll_inv (sch := sch) x (specAt sch i).rel ph
+      (if b then (s.links i).src x else (s.links i).tgt x) s hinv
+    have hs1_fr := unrelateAll_frame sch x (specAt sch i).rel ph
+      (if b then (s.links i).src x else (s.links i).tgt x) s
+    have hs1_sub := unrelateAll_sub sch x (specAt sch i).rel ph
+      (if b then (s.links i).src x else (s.links i).tgt x) s
+    have hs1_t := typed_of_sub ht hs1_sub hs1_fr.2.1
+    have ih := deleteLinks_clears hok x rest _ hs1_inv hs1_t (by
+      intro e he
+      rw [hs1_fr.2.1]
+      exact hls e (by simp [he]))
+    rw [deleteLinks]
+    simp only [hinner.1, ↓reduceIte]
+    refine ⟨ih.1, ?_⟩
+    intro e he
+    rcases List.mem_cons.mp he with rfl | he
+    · have hsub := deleteLinks_sub sch x rest (unrelateAll sch x (specAt sch i).rel ph
+        (if b then (s.links i).src x else (s.links i).tgt x) s).1
+      refine ⟨fun hb => ?_, fun hb => ?_⟩
+      · apply List.eq_nil_iff_forall_not_mem.mpr
+        intro y hy
+        have := (hsub i x y).1 hy
+        rw [hinner.2.1 hb] at this; simp at this
+      · apply List.eq_nil_iff_forall_not_mem.mpr
+        intro y hy
+        have := (hsub i x y).2 hy
+        rw [hinner.2.2 hb] at this; simp at this
+    · exact ih.2 e he
+
+end Pyx.Meta
+
+namespace Pyx.Meta
+
+/-- an accepted delete succeeds (no UnrelateException from the loop) and leaves no link to or from the
+    deleted instance; every other instance keeps its liveness -/
+theorem delete_liveOnly {sch : Schema} (hok : SchemaOk sch) {s : State} (hinv : Inv sch s) (ht : Typed sch s)
+    (hl : LiveOnly s) (hp : PoolInv s) {x : Inst} (hx : live s x) :
+    (delete sch s x).2 = .ok ∧ LiveOnly (delete sch s x).1 := by
+  have hc : x ∈ s.pool (s.kindOf x) ∧ x < s.count := ⟨hx.2, hx.1⟩
+  -- the state after the pool removal: same links, same kinds
+  let s1 : State := { s with pool := upd s.pool (s.kindOf x) ((s.pool (s.kindOf x)).erase x) }
+  have hinv1 : Inv sch s1 := fun i => hinv i
+  have ht1 : Typed sch s1 := fun i a b h => ht i a b h
+  have hcl := deleteLinks_clears hok x (linksOf sch (s.kindOf x)) s1 hinv1 ht1 (by
+    intro e he
+    obtain ⟨i, b, ph⟩ := e
+    obtain ⟨a, ha, hc'⟩ := mem_linksOf.mp he
+    exact ⟨a, ha, hc'⟩)
+  have hfr := deleteLinks_frame sch x (linksOf sch (s.kindOf x)) s1
+  have hsub := deleteLinks_sub sch x (linksOf sch (s.kindOf x)) s1
+  have hinvF := deleteLinks_inv (sch := sch) x (linksOf sch (s.kindOf x)) s1 hinv1
+  have hdel : delete sch s x = deleteLinks sch x (linksOf sch (s.kindOf x)) s1 := by
+    unfold delete; simp only [hc, and_self, ↓reduceIte]; rfl
+  rw [hdel]
+  refine ⟨hcl.1, ?_⟩
+  intro j z w hm
+  have hm0 : w ∈ (s.links j).src z := (hsub j z w).1 hm
+  obtain ⟨a, ha, hkz, hkw⟩ := ht j z w hm0
+  have hz : z ≠ x := by
+    intro hzx; subst hzx
+    have he : (j, true, a.tgtPhrase) ∈ linksOf sch (s.kindOf z) := mem_linksOf.mpr ⟨a, ha, Or.inl ⟨rfl, hkz.symm, rfl⟩⟩
+    have := (hcl.2 _ he).1 rfl
+    simp only at this
+    rw [this] at hm; simp at hm
+  have hw : w ≠ x := by
+    intro hwx; subst hwx
+    have he : (j, false, a.srcPhrase) ∈ linksOf sch (s.kindOf w) := mem_linksOf.mpr ⟨a, ha, Or.inr ⟨rfl, hkw.symm, rfl⟩⟩
+    have hem := (hcl.2 _ he).2 rfl
+    simp only at hem
+    have : z ∈ ((deleteLinks sch w (linksOf sch (s.kindOf w)) s1).1.links j).tgt w := ((hinvF j).1 z w).1 hm
+    rw [hem] at this; simp at this
+  have hlive : ∀ u, live s u → u ≠ x → live (deleteLinks sch x (linksOf sch (s.kindOf x)) s1).1 u := by
+    intro u hu hne
+    unfold live
+    rw [hfr.1, hfr.2.1, hfr.2.2.1]
+    refine ⟨hu.1, ?_⟩
+    show u ∈ upd s.pool (s.kindOf x) ((s.pool (s.kindOf x)).erase x) (s.kindOf u)
+    by_cases hk : s.kindOf u = s.kindOf x
+    · rw [hk]; simp only [upd_same]
+      exact (List.mem_erase_of_ne hne).2 (hk ▸ hu.2)
+    · simp only [upd, hk, ↓reduceIte]; exact hu.2
+  have := hl j z w hm0
+  exact ⟨hlive z this.1 hz, hlive w this.2 hw⟩
+
+/-! `Typed` is an invariant of every operation applied to live instances -/
+
+theorem typed_init (sch : Schema) : Typed sch init := fun i x y h => by simp [init, emptyLinks] at h
+
+theorem relate_typed {sch : Schema} {s : State} (ht : Typed sch s) (x y : Inst) (r p : String) :
+    Typed sch (relate sch s x y r p).1 := by
+  have hf := relate_frame sch s x y r p
+  intro j z w hm
+  rw [hf.2.1]
+  unfold relate at hm
+  split at hm
+  · exact ht j z w hm
+  · rename_i i d hfl
+    simp only at hm
+    by_cases hj : j = i
+    · subst hj
+      simp only [upd_same] at hm
+      -- whatever relateOn returned, its source map holds old pairs or the oriented new pair
+      have hcases : w ∈ (s.links j).src z ∨ (z = (orient d x y).1 ∧ w = (orient d x y).2) := by
+        unfold relateOn at hm
+        split at hm
+        · exact Or.inl hm
+        · rename_i s' hs
+          split at hm
+          · split at hm
+            · rename_i s'' hd
+              exact (connect_mem hs z w).1 (disconnect_sub hd z w hm)
+            · exact (connect_mem hs z w).1 hm
+          · exact (connect_mem hs z w).1 hm
+      rcases hcases with h | ⟨hz, hw⟩
+      · exact ht j z w h
+      · obtain ⟨a, ha, _, _, hfw, hrv⟩ := findLinkFrom_sound sch 0 j d hfl
+        refine ⟨a, by simpa using ha, ?_⟩
+        subst hz hw
+        cases d with
+        | fwd => have := hfw rfl; simp only [orient]; exact ⟨this.1.symm, this.2.1.symm⟩
+        | rev => have := hrv rfl; simp only [orient]; exact ⟨this.2.1.symm, this.1.symm⟩
+    · simp only [upd, hj, ↓reduceIte] at hm; exact ht j z w hm
+
+theorem unrelate_typed {sch : Schema} {s : State} (ht : Typed sch s) (x y : Inst) (r p : String) :
+    Typed sch (unrelate sch s x y r p).1 :=
+  typed_of_sub ht (unrelate_sub sch s x y r p) (unrelate_frame sch s x y r p).2.1
+
+theorem delete_typed {sch : Schema} {s : State} (ht : Typed sch s) (x : Inst) : Typed sch (delete sch s x).1 := by
+  unfold delete
+  split
+  · exact typed_of_sub (s := { s with pool := upd s.pool (s.kindOf x) ((s.pool (s.kindOf x)).erase x) })
+      (fun i a b h => ht i a b h) (deleteLinks_sub sch x _ _) (deleteLinks_frame sch x _ _).2.1
+  · exact ht
+
+theorem new_typed {sch : Schema} {s : State} (ht : Typed sch s) (hl : LiveOnly s) (k : Kind) (hid : Bool) :
+    Typed sch (new s k hid).1 := by
+  intro i x y hm
+  have hm0 : y ∈ (s.links i).src x := by simpa [new] using hm
+  obtain ⟨a, ha, h1, h2⟩ := ht i x y hm0
+  have hlx := (hl i x y hm0)
+  have hx : x ≠ s.count := Nat.ne_of_lt hlx.1.1
+  have hy : y ≠ s.count := Nat.ne_of_lt hlx.2.1
+  exact ⟨a, ha, by simp [new, upd, hx, h1], by simp [new, upd, hy, h2]⟩
+
+end Pyx.Meta
+
+namespace Pyx.Meta
+
+/-- the domain of the statement: relate is applied to live instances (use-after-delete is excluded);
+    delete may be applied to anything (a dead instance is rejected) -/
+def OpOk (s : State) : Op → Prop
+  | .relate x y _ _ => live s x ∧ live s y
+  | _ => True
+
+def Dom (sch : Schema) : State → List Op → Prop
+  | _, [] => True
+  | s, op :: ops => OpOk s op ∧ Dom sch (step sch s op).1 ops
+
+structure AllInv (sch : Schema) (s : State) : Prop where
+  inv : Inv sch s
+  typed : Typed sch s
+  liveOnly : LiveOnly s
+  pool : PoolInv s
+
+theorem allInv_init (sch : Schema) : AllInv sch init :=
+  ⟨inv_init sch, typed_init sch, liveOnly_init, poolInv_init⟩
+
+theorem step_allInv {sch : Schema} (hok : SchemaOk sch) {s : State} (h : AllInv sch s) (op : Op) (hop : OpOk s op) :
+    AllInv sch (step sch s op).1 := by
+  refine ⟨step_inv h.inv op, ?_, ?_, step_poolInv h.pool op⟩
+  · cases op with
+    | new k hid => exact new_typed h.typed h.liveOnly k hid
+    | relate x y r p => exact relate_typed h.typed x y r p
+    | unrelate x y r p => exact unrelate_typed h.typed x y r p
+    | delete x => exact delete_typed h.typed x
+  · cases op with
+    | new k hid => exact new_liveOnly h.pool h.liveOnly k hid
+    | relate x y r p => exact relate_liveOnly h.liveOnly hop.1 hop.2
+    | unrelate x y r p => exact unrelate_liveOnly h.liveOnly x y r p
+    | delete x =>
+      by_cases hx : live s x
+      · exact (delete_liveOnly hok h.inv h.typed h.liveOnly h.pool hx).2
+      · simp only [step]; rw [delete_dead_rejected sch s x hx]; exact h.liveOnly
+
+theorem run_allInv_from {sch : Schema} (hok : SchemaOk sch) : ∀ (ops : List Op) (s : State), AllInv sch s → Dom sch s ops →
+    AllInv sch (ops.foldl (fun s op => (step sch s op).1) s)
+  | [], s, h, _ => h
+  | op :: ops, s, h, hd => run_allInv_from hok ops _ (step_allInv hok h op hd.1) hd.2
+
+end Pyx.Meta
